@@ -640,9 +640,24 @@ class CSSStyleSheet(cssutils.stylesheets.StyleSheet):
             # variables?
 
         elif isinstance(rule, cssutils.css.CSSRuleList):
-            # insert all rules
-            for i, r in enumerate(rule):
-                self.insertRule(r, index + i)
+            # insert all rules or none, so save for possible reset
+            oldCssRules = list(self._cssRules)
+            oldParents = [r._parentStyleSheet for r in rule]
+            oldVariables = self._variables.cssText
+            try:
+                for i, r in enumerate(rule):
+                    self.insertRule(r, index + i)
+            except xml.dom.DOMException:
+                # a rule has been rejected (if raising), reset
+                for r, parent in zip(rule, oldParents):
+                    r._parentStyleSheet = parent
+                for r in oldCssRules:
+                    # may have been detached while cleaning namespaces
+                    r._parentStyleSheet = self
+                del self._cssRules[:]
+                list.extend(self._cssRules, oldCssRules)
+                self._variables.cssText = oldVariables
+                raise
             return index
 
         if not rule.wellformed:
